@@ -1,7 +1,7 @@
 (** C15 part B — the queue-level property on observed rows, independent of the model. *)
 From V.Lib Require Import Base.
 From V.Gen Require Import C15Tables.
-From V.C15 Require Import Spec.
+From V.C15 Require Import Model Spec QModel.
 Local Open Scope Z_scope.
 
 (** rows non-empty, sorted, non-overlapping; rows that touch differ in priority (gaps allowed) *)
@@ -104,3 +104,30 @@ Definition sugg_ok (q sugg : list row) : bool :=
   forallb (fun r => row_mem r q && (spec_rank Historic <=? spec_rank (snd r))) sugg &&
   forallb (fun r => if spec_rank Historic <=? spec_rank (snd r) then row_mem r sugg else true) q &&
   rank_desc sugg.
+
+(** The Verify range a chain-tip update must install (documented rule): with shard metadata below
+    the new chain end and the max scanned block at least PRUNING_DEPTH below the new tip, the
+    VERIFY_LOOKAHEAD blocks above the max scanned block, limited to the stable region. *)
+Definition shard_tip_below (c : ctx) (chain_end : Z) : bool :=
+  match omin_list [tip_shard_end_height (sapling_shards c); tip_shard_end_height (orchard_shards c);
+                   tip_shard_end_height (ironwood_shards c)] with
+  | Some h => h <? chain_end
+  | None => false
+  end.
+Definition expected_verify (c : ctx) (t : Z) : option (Z * Z) :=
+  match sapling_act c, max_scanned c with
+  | Some a, Some ms =>
+      let stable := Z.max (t - PRUNING_DEPTH) 0 in
+      if (a <=? t) && (ms <=? stable) &&
+         match birthday c with Some b => b <=? t | None => true end && shard_tip_below c (t + 1)
+      then Some (ms + 1, Z.min (stable + 1) (ms + 1 + VERIFY_LOOKAHEAD))
+      else None
+  | _, _ => None
+  end.
+Definition verify_ok (c : ctx) (t : Z) (pre post : list row) : bool :=
+  let is_verify l h := oprio_eqb (rows_at l h) (Some Verify) in
+  let '(vs, ve) := match expected_verify c t with Some r => r | None => (0, 0) end in
+  forallb (fun h => if in_range vs ve h then is_verify post h
+                    else if is_verify post h then is_verify pre h else true)
+          (vs - 1 :: vs :: ve - 1 :: ve :: all_points pre post).
+
